@@ -268,8 +268,9 @@ class ReservedResources():
         # Reduce reserved resources by amounts released.
         to_delete = []
         for resource_name, amount in resources.items():
-            if amount > 0:
-                self._reserved_resources[resource_name] -= amount
+            if amount == 0:
+                continue
+            self._reserved_resources[resource_name] -= amount
             if self._reserved_resources[resource_name] == 0:
                 to_delete.append(resource_name)
         # Remove from the dictionary of reserved resources any resource
